@@ -136,7 +136,7 @@ def legal_end(vs, L, p):
     return p == L or synth.legal_boundary(vs, p)
 
 
-def simulate_region_reads(rng, sc, sample, chrom, lo, hi, cov, len_range, prefix, feat=None, full_span=0):
+def simulate_region_reads(rng, sc, sample, chrom, lo, hi, cov, len_range, prefix, feat=None, full_span=0, p0=0.5):
     """error-free reads of one sample inside [lo, hi).  feat: pairs / bx / lowq / dup / edge probabilities.
     full_span = n > 0: exactly n reads that all span the whole region (for exact vote fractions)."""
     feat = feat or {}
@@ -169,7 +169,7 @@ def simulate_region_reads(rng, sc, sample, chrom, lo, hi, cov, len_range, prefix
     reads = []
     inside = [v for v in vs if lo <= v.pos and v.pos + len(v.ref) < hi]
     for k in range(n):
-        h = rng.randint(0, 1)
+        h = rng.randint(0, 1) if p0 == 0.5 else (0 if rng.random() < p0 else 1)
         length = rng.randint(*len_range)
         if full_span:
             s, e = lo, hi
@@ -312,6 +312,43 @@ def decorate_vcf(rng, path, deco, missing):
         fh.write("\n".join(out) + "\n")
 
 
+def symbolize_vcf(rng, sc, path, prob):
+    """rewrite deletion records as symbolic <DEL> records (REF = anchor base, INFO SVTYPE/END/SVLEN; the reads still carry
+    the real deletion) and insert a homozygous-reference <DUP> record in front of the first record of a chromosome.
+    Returns {(chrom, pos text): genotype class} of the symbolic records."""
+    lines = open(path).read().splitlines()
+    out, made = [], {}
+    seen_chrom = set()
+    for l in lines:
+        if l.startswith("#CHROM"):
+            out += ['##ALT=<ID=DEL,Description="Deletion">', '##ALT=<ID=DUP,Description="Duplication">',
+                    '##INFO=<ID=SVTYPE,Number=1,Type=String,Description="Type of structural variant">',
+                    '##INFO=<ID=END,Number=1,Type=Integer,Description="End position">',
+                    '##INFO=<ID=SVLEN,Number=1,Type=Integer,Description="Length">']
+        if l.startswith("#"):
+            out.append(l)
+            continue
+        f = l.split("\t")
+        if f[0] not in seen_chrom:
+            seen_chrom.add(f[0])
+            p0 = int(f[1]) - 6
+            if p0 >= 1 and rng.random() < prob:
+                ns = len(f) - 9
+                g = [f[0], str(p0), ".", sc.ref[f[0]][p0 - 1], "<DUP>", ".", "PASS", f"SVTYPE=DUP;END={p0 + 40};SVLEN=40", "GT"]
+                out.append("\t".join(g + ["0/0"] * ns))
+                made[(f[0], g[1])] = "hom"
+        if len(f[3]) > 1 and len(f[4]) == 1 and f[3][0] == f[4] and rng.random() < prob:
+            k = len(f[3]) - 1
+            gts = {c.split(":")[0].replace("|", "/") for c in f[9:]}
+            f[7] = f"SVTYPE=DEL;END={int(f[1]) + k};SVLEN=-{k}"
+            f[3], f[4] = f[3][0], "<DEL>"
+            made[(f[0], f[1])] = "het" if any(len(set(g.split("/"))) > 1 for g in gts) else "hom"
+        out.append("\t".join(f))
+    with open(path, "w") as fh:
+        fh.write("\n".join(out) + "\n")
+    return made
+
+
 def add_extra_records(rng, sc, path):
     """insert (unphased) a record without ALT and a second record at the position of an SNV; returns their keys"""
     lines = open(path).read().splitlines()
@@ -404,6 +441,7 @@ def make_spec(rng, stream):
     return spec
 
 
+SKEWS = [(3, 1), (4, 1), (1, 3), (1, 4), (1, 0), (0, 1), (9, 1), (1, 1)]     # reads of haplotype 0 : haplotype 1, per region
 SAMPLE_NAMES = ["S1", "S10", "S2", "mother", "child", "father", "NA12878", "a", "B", "zz-top", "sample_1", "sample_11"]
 CHROM_NAMES = ["chr10", "chr2", "chr1", "1", "X", "ctgB", "ctgA", "scaffold_7", "chrUn.1"]
 
@@ -435,6 +473,8 @@ def draw_free(rng, spec):
         spec["bmode"] = "dropchrom"
     if spec["stream"] in ("plain", "prephased") and rng.random() < 0.08:
         spec["bmode"] = "untagged"
+    spec["skew"] = rng.random() < 0.4
+    spec["symbolic"] = rng.choice([0.0, 0.0, 0.5, 1.0])          # symbolic-ALT records (<DEL>, <DUP>)
     # malformed-but-accepted input: single calls with a missing genotype (./. or 0/.)
     spec["missing"] = 0.15 if rng.random() < 0.12 else 0.0
     # read names shared by two samples of one BAM
@@ -457,7 +497,8 @@ def decode_vcf(path):
                 ps = c["PS"] if pskey else None
                 calls.append((gt, bool(c.phased), ps))
             snv = len(rec.ref) == 1 and len(rec.alts or ()) == 1 and len(rec.alts[0]) == 1 and rec.alts[0] != rec.ref
-            out.setdefault(rec.chrom, []).append((rec.start, snv, pskey, calls, len(rec.alts or ())))
+            out.setdefault(rec.chrom, []).append((rec.start, snv, pskey, calls, len(rec.alts or ()),
+                                                  any(a.startswith("<") for a in (rec.alts or ()))))
     return samples, out
 
 
@@ -567,8 +608,11 @@ def _run_pipeline(spec, impl, d):
         for c in groups:
             for gi, (lo, hi, idx) in enumerate(groups[c]):
                 pre = "r_" if spec.get("collide") else f"{s}_"
-                rr = simulate_region_reads(rng, sc, s, c, lo, hi, spec["cov"], (60, 220), f"{pre}{c}_g{gi}_r",
-                                           feat=feat, full_span=raw["n"] if raw else 0)
+                ratio = xr.choice(SKEWS) if spec.get("skew") else (1, 1)
+                res.setdefault("skews", []).append("%d:%d" % ratio)
+                rr = simulate_region_reads(rng, sc, s, c, lo, hi, max(spec["cov"], 8) if ratio != (1, 1) else spec["cov"],
+                                           (60, 220), f"{pre}{c}_g{gi}_r", feat=feat, full_span=raw["n"] if raw else 0,
+                                           p0=ratio[0] / (ratio[0] + ratio[1]))
                 for r_ in rr:
                     r_["gi"] = gi
                 reads_a += rr
@@ -660,6 +704,8 @@ def _run_pipeline(spec, impl, d):
         res["steps"]["phase"] = 0
     if spec.get("deco") or spec.get("missing"):
         decorate_vcf(xr, phased, spec.get("deco"), spec.get("missing", 0.0))
+    if spec.get("symbolic"):
+        res["symbolic"] = sorted(symbolize_vcf(xr, sc, phased, spec["symbolic"]).values())
     extra_keys = add_extra_records(rng, sc, phased) if spec.get("extras") else set()
     pysam.tabix_index(phased, preset="vcf", force=True, keep_original=True)
 
@@ -1132,6 +1178,10 @@ def tally_dimensions(ctx, spec, r):
         t(f"dim.param.{k}={v}")
     if spec.get("rawtags"):
         t(f"dim.rawtags.n={spec['rawtags']['n']},wrong={spec['rawtags']['wrong']}")
+    for x in r.get("skews", []):
+        t("dim.region_coverage_hap0:hap1." + x)
+    for x in r.get("symbolic", []):
+        t("dim.symbolic_alt_record." + x)
     for k in ("edge_first", "edge_last"):
         if r.get(k):
             t("dim.variant_on_" + ("first" if k == "edge_first" else "last") + "_base", r[k])
@@ -1204,6 +1254,19 @@ def run_specs(ctx, specs, label):
                 for c_ in rec[3]:
                     if c_[1]:
                         ctx.tally("prephased_calls.class%d" % call_class(sk, rec[2], c_))
+            # genotype classes of neighbouring records (the reader restricts every record to its own genotype)
+            for si_ in range(len(ch["reads"])):
+                seen_sym = False
+                prev = None
+                for rec, na in zip(ch["inp"], [x[4] for x in ch["inp"]]):
+                    g = rec[3][si_][0]
+                    cls = ("missing" if (not g or None in g) else "hom%d" % g[0] if len(set(g)) == 1
+                           else "het0%d" % max(g) if 0 in g else "het12")
+                    if prev is not None and prev != cls:
+                        ctx.tally(f"neighbours.{prev}->{cls}" + (".after_symbolic" if seen_sym else ""))
+                    prev = cls
+                    if rec[5]:
+                        seen_sym = True
             if ch.get("untouched"):
                 ctx.tally("cases.chromosome_not_requested")
             if not ch["inp"] or not any(ch["reads"]):
